@@ -610,6 +610,9 @@ func oneCase(r *mon.Rec, i int, isTyped func(int) bool, typedList []int) {
 			run(r, b.entry, 0, b.b, "label-web")
 		}
 		w = reflabel.Boundary(rng)
+		if rng.IntN(3) == 0 {
+			w = reflabel.FarPointer(rng)
+		}
 		run(r, "rfc1035label.FromBytes", 0, w, "label-boundary")
 		for _, b := range wrapNames(w) {
 			run(r, b.entry, 0, b.b, "label-boundary")
